@@ -1,0 +1,29 @@
+//go:build verif
+
+package avl
+
+import (
+	"fmt"
+	"strings"
+)
+
+// VerifShape renders the tree structure, cached heights included, as a nested
+// list: "[]" for a nil subtree and "[value,height,left,right]" for a node.
+// Verification hook; only compiled with the "verif" build tag.
+func (n *Tree[T]) VerifShape() string {
+	var sb strings.Builder
+	verifShape(&sb, n.root)
+	return sb.String()
+}
+
+func verifShape[T comparable](sb *strings.Builder, n *node[T]) {
+	if n == nil {
+		sb.WriteString("[]")
+		return
+	}
+	fmt.Fprintf(sb, "[%v,%d,", n.value, n.height)
+	verifShape(sb, n.left)
+	sb.WriteByte(',')
+	verifShape(sb, n.right)
+	sb.WriteByte(']')
+}
